@@ -291,6 +291,17 @@ Proof.
     apply firstn_skipn_prefix.
 Qed.
 
+(* ---- a request cut by the network: lpre is closed under prefixes ---- *)
+
+Lemma trunc_msg_ok s m k : msg_ok s m -> msg_ok s (trunc_req m k).
+Proof.
+  intros [Hel [P [HP1 [HP2 HP3]]]]. split; simpl.
+  - exact Hel.
+  - exists P. split; [exact HP1|]. split; [exact HP2|].
+    apply (lpre_prefix _ _ _ (P ++ rents m)); [exact HP3|].
+    apply prefix_app_cancel. apply firstn_prefix.
+Qed.
+
 (* ---- RecvAppend: what the merge does ---- *)
 
 Lemma recv_log s f m :
@@ -512,6 +523,11 @@ Proof.
     + intros n0. pose proof (l_fl _ Hl n0). upd_case n0 n; simpl; node_obl.
   - (* install *)
     apply linv_install; assumption.
+  - (* truncated request *)
+    apply (linv_frame s); [exact Hl | reflexivity | reflexivity | | |]; unfold do_trunc; simpl.
+    + intros t0 c0 L0 Hin. left. exact Hin.
+    + intros m0 [<-|Hin]; [right; apply trunc_msg_ok; exact (l_msg _ Hl _ H) | left; exact Hin].
+    + intros n0. pose proof (l_fl _ Hl n0). node_obl.
 Qed.
 
 Lemma reachable_inv s : Reachable V s -> vinv V s /\ linv s.
